@@ -5,7 +5,7 @@ from ..index import AnalysisError, attr_chain, chain_prefixes, norm, own_nodes
 from ..query import (calls_in, call_name, is_value_yield, lines, mentions_all, falsy_edges, assigns,
                      assigns_none)
 from ..condeval import check_cond
-from .common import borrowed
+from .common import borrowed, resolved_text
 from .common import (TLSCONN, TLSREC, nodes_with_call, consumes_of, getmsg_nodes, dead_edge_labels,
                      effective_tests, must_pass, senderror_desc)
 
@@ -342,9 +342,12 @@ def rule_client(ctx):
               "expired session tickets must be removed before one is offered", ch.loc())
     ok2 = False
     for x in own_nodes(ch.node):
-        if isinstance(x, ast.Assign) and norm(x.targets[0]) == "session.tickets[:]":
-            s = norm(x.value)
-            ok2 = "i.time + i.ticket_lifetime > now" in s and "7 * 24 * 60 * 60" in s
+        if isinstance(x, ast.Assign) and isinstance(x.targets[0], ast.Subscript) and norm(x.targets[0].slice) == ":" \
+                and "session.tickets" in resolved_text(ch.node, x.targets[0].value):
+            s = resolved_text(ch.node, x.value)
+            import re as _re
+            ok2 = bool(_re.search(r"i\.time \+ i\.ticket_lifetime > (now|time\.time\(\))", s)) and \
+                bool(_re.search(r"i\.time \+ (7 \* 24 \* 60 \* 60|604800) > (now|time\.time\(\))", s))
     ctx.check(R, ok2, ch.qname, "expired TLS 1.3 tickets pruned before the offer",
               "TLS 1.3 tickets past their lifetime (or 7 days) must be removed before the offer", ch.loc())
     tv = ctx.index.func("session:Ticket.valid")
@@ -395,10 +398,11 @@ def rule_carry(ctx):
             cr = x
     if cr is None:
         raise AnalysisError("C13.CARRY: session.create(...) not found in _ticket_to_session")
-    pos = [norm(a) for a in cr.args]
-    kw = {k.arg: norm(k.value) for k in cr.keywords}
-    ok = len(pos) >= 5 and pos[0] == "ticket.master_secret" and pos[2] == "ticket.cipher_suite" and \
-        pos[4] == "ticket.client_cert_chain"
+    from .common import bound_args
+    ba = bound_args(cr, ctx.index.func("session:Session.create").node)
+    kw = dict(ba)
+    ok = ba.get("masterSecret") == "ticket.master_secret" and ba.get("cipherSuite") == "ticket.cipher_suite" and \
+        ba.get("clientCertChain") == "ticket.client_cert_chain"
     ctx.check(R, ok, ft.qname, "session restored with the ticket's secret, suite and client chain",
               "the restored session must take master secret, cipher suite and client chain from the ticket",
               ft.loc(cr))
